@@ -308,7 +308,7 @@ def wrap_like_sdeint(sde, names=None):
     return ForwardSDE(sde)
 
 
-def make_step(method, sde_type, noise_type, d=1, m=1, options=None, batch=1, seed=7, stage_apps=False, variant='fg', hook=None):
+def make_step(method, sde_type, noise_type, d=1, m=1, options=None, batch=1, seed=7, stage_apps=False, variant='fg', hook=None, warmup=False):
     """returns (fn(B), sample(rng), funcs) for one solver step; `variant`: key of VARIANTS or (present, names);
     `hook(forward_sde)` is called on the ForwardSDE before the solver is built (instrumentation)"""
     m_eff = d if noise_type == 'diagonal' else m
@@ -342,6 +342,10 @@ def make_step(method, sde_type, noise_type, d=1, m=1, options=None, batch=1, see
             extra0 = (f0, g0, z0)
         else:
             extra0 = solver.init_extra_solver_state(t0, y0)
+        if warmup:
+            # C02: a step must be a function of its arguments only - take (and discard) a different step on the SAME solver
+            # object first (what adaptive stepping does: full step, then two half steps from the same point)
+            solver.step(t0, t0 + 0.5 * (t1 - t0), y0, extra0)
         y1, extra1 = solver.step(t0, t1, y0, extra0)
         out = {'y1': y1}
         if method == 'reversible_heun':
